@@ -1036,7 +1036,7 @@ theorem fin_doActionCore (M : Nat) (w : World) (mid : Nat) (batch : Option Txn) 
       simpa using hmiss
     cases a with
     | create o tr =>
-      have hk : ∀ (w' : World), w'.orders = w.orders ++ [{ o with id := w.orders.length, created := w.clock, statusAt := w.clock, status := none, complete := false }] →
+      have hk : ∀ (w' : World), w'.orders = w.orders ++ [{ o with id := w.orders.length, created := w.clock, statusAt := w.clock, status := none, complete := false, log := [] }] →
           w'.markets = w.markets → w'.queue = w.queue → BOk w' batch → SOk M w' batch ∧ Step M w w' := by
         intro w' h1 h2 h3 hb
         obtain ⟨b1, s1⟩ := (fs_appendOrder M w w' _ rfl h1 h2 (sub_of_eq h3)).2 hBI
